@@ -58,6 +58,23 @@ def main():
         other = ', '.join(f'{k}: {v}' for k, v in sorted(r.items()) if v != 'green')
         lines.append(f'| `{rid}` | {meta["refactor"]} | {meta["files"]} | {green} of {len(r)} green'
                      f'{(" - " + other + " **UNEXPECTED**") if other else ""} |')
+    var = dict(load('VARIATIONS.json'))
+    for k, v in load('VARIATIONS2.json').items():
+        var.setdefault(k, {}).update(v)
+    lines += ['', '## Variations of behaviour the statements leave open (`variations/<id>/`, over-reach probes)', '',
+              'Written by fresh sub-agents asked to change observable behaviour near one property in a way its statement',
+              'does not constrain (pinned suite 301/301, a script showing the difference, a clause-by-clause argument).',
+              'Results are those of the checks as they stand now; the five alarms of the first pass were false alarms of',
+              'the checks and were corrected (DESIGN.md 10.8).', '',
+              '| id | property | what was varied | checks run -> result |', '|---|---|---|---|']
+    base = os.path.join(VERIF, 'variations')
+    for vid in sorted(os.listdir(base)) if os.path.isdir(base) else []:
+        meta = json.load(open(os.path.join(base, vid, 'meta.json')))
+        r = var.get(vid, {})
+        green = sum(v == 'green' for v in r.values())
+        other = ', '.join(f'{k}: {v}' for k, v in sorted(r.items()) if v != 'green')
+        lines.append(f'| `{vid}` | {meta["property"]} | {meta["variations"]} | {green} of {len(r)} green'
+                     f'{(" - " + other + " **UNEXPECTED**") if other else ""} |')
     for seed in (2, 3):
         ms = load(f'SEEDED_seed{seed}.json')
         if ms:
